@@ -90,31 +90,31 @@ _TECH = "deterministic simulation with fault injection: seeded lifecycle-history
 MANIFEST_CHECKS.update(
     {
         "C08": {
-            "text": "Seeded search over module-tree architectures x lifecycle histories (fresh, calibrating, streamlined, partially frozen, frozen, reloaded, restarted, after weight updates, first forward after a fault-aborted one). Structural diff of the tree once per quantize(); at every forward every quantized module's observed output is compared with a float64 twin on the input it actually received, under an analytic per-element bound. Sampling of architectures and histories, not proof.",
+            "text": "Seeded search over module-tree architectures x lifecycle histories (fresh, calibrating, streamlined, partially frozen, frozen, reloaded, restarted, after weight updates, first forward after a fault-aborted one). Structural diff of the tree once per quantize() (which modules were replaced, parameters bit for bit, hyper-parameters, dtype, device, names, train/eval flags of the modules left alone; trees with tied parameters, shared instances, Sequential slices, mixed modes); at every forward every quantized module's observed output is compared with a float64 twin on the input it actually received, under an analytic per-element bound. Sampling of architectures and histories, not proof.",
             "design_ref": "DESIGN.md section 5 (C08), 3.4 (twin)",
             "note": "Trusted: torch float64 functional ops as reference; quanto's own quantizers for inputs/weights (C01/C02 are not judged here); rounding bound constants documented in DESIGN 3.4.",
             "technique": _TECH,
         },
         "C09": {
-            "text": "Seeded search over interleavings of forward / calibrate / freeze / partial freeze / re-freeze / deepcopy / to(cpu) / save / load / weight update, with freeze aborted by injected faults. Output memo compared bit for bit across every output-preserving op; frozen weights compared bit for bit with the dynamic path; idempotence digests; payload geometry and state_dict byte totals.",
+            "text": "Seeded search over interleavings of forward / calibrate / freeze / partial freeze / re-freeze / deepcopy / to(cpu) / save / load / weight update, with freeze aborted by injected faults. Output memo compared bit for bit across every output-preserving op; frozen weights compared bit for bit with the dynamic path; idempotence digests; payload geometry, stored tensors detached from the float weight's graph, state_dict byte totals; a deepcopy that raises is a violation.",
             "design_ref": "DESIGN.md section 5 (C09)",
             "note": "Bit equality only. Device moves are cpu->cpu (no accelerator in the sandbox).",
             "technique": _TECH,
         },
         "C10": {
-            "text": "Seeded save/load histories through three serializers onto a simulated disk (real files in a scratch directory, in-memory pickles, state_dicts handed over in memory or read once and kept by the caller), with restart (only the file survives), key-order permutation, failed-then-retried writes, repeated cycles and three kinds of load target; state_dict equality, field equality and bit-identical outputs against the pre-save memo.",
+            "text": "Seeded save/load histories through three serializers onto a simulated disk (real files in a scratch directory, in-memory pickles, state_dicts handed over in memory or read once and kept by the caller), with restart (only the file survives), key-order permutation, failed-then-retried writes, repeated cycles, four kinds of load target (default-quantized, same-quantized, requantize(), meta-device skeleton with assign=True) and second loads into an already loaded model; a load must leave other live models and the state_dicts the caller still holds unchanged; state_dict equality, field equality and bit-identical outputs against the pre-save memo.",
             "design_ref": "DESIGN.md section 5 (C10)",
             "note": "Bit equality only. Restart is an in-process rebuild with a different init seed. Torn/corrupted files are out of scope.",
             "technique": _TECH,
         },
         "C11": {
-            "text": "Seeded histories of training steps, in-place weight updates, forwards and freezes; gradients reaching each quantized module's input, weight and bias compared with an independently built float64 straight-through graph (per module, on the upstream gradient that actually arrived) under an analytic bound; frozen weights/scales must stay gradient-free; freshness of the dynamic quantized weight after every update.",
+            "text": "Seeded histories of training steps, in-place weight updates, forwards and freezes; gradients reaching each quantized module's input, weight and bias compared with an independently built float64 straight-through graph (per module, on the upstream gradient that actually arrived) under an analytic bound; frozen weights/scales must stay gradient-free; freshness of the dynamic quantized weight after every update, also across a checkpoint loaded back into the live model (Parameter objects kept); requires_grad switched by the caller before or after quantize(); scalar losses and channels-last batches.",
             "design_ref": "DESIGN.md section 5 (C11)",
             "note": "Trusted: torch autograd in float64 as reference. No injected-fault batch (nothing in the property speaks about faults); calls the library refuses (documented ValueErrors caught by the caller) are part of the histories, and training runs in the process' ambient grad mode.",
             "technique": _TECH,
         },
         "C12": {
-            "text": "EMA reference model stepped batch by batch through arbitrary calibration histories (several successive contexts, momentum menu, float or quantized module inputs, streamline on/off, batches aborted by injected faults, save/restart/load between contexts, magnitudes that make a scale land exactly on 1); every module's input/output scale checked against the law after every batch, with the old-or-new relaxation after an aborted batch.",
+            "text": "EMA reference model stepped batch by batch through arbitrary calibration histories (several successive contexts, momentum menu, float or quantized module inputs, streamline on/off, batches aborted by injected faults, save/restart/load between contexts, magnitudes that make a scale land exactly on 1); every module's input/output scale checked against the law after every batch, with the old-or-new relaxation after an aborted batch; scales compared across the exit of every block (leaving a block is not a batch); stage-wise calibration with kept outputs; all-zero batches.",
             "design_ref": "DESIGN.md section 5 (C12)",
             "note": "Trusted: float64 twin for the raw output absmax. Nested contexts are not judged.",
             "technique": _TECH,
